@@ -50,7 +50,7 @@ package file_storage
 // GetMessages decodes every line into one reused variable: a record must therefore overwrite every field of the
 // previous one (every field always written, none merged), and survive the file round trip unchanged
 //@ import storage "github.com/lidofinance/dc4bc/storage"
-//@ jsonoverwrite[C16.read.fresh] storage.Message
+//@ jsonoverwrite[C16.read.fresh,C08.read.fresh] storage.Message
 //@ roundtrip[C16.read.roundtrip] storage.Message
 //@ func (*FileStorage).GetMessages
 //@   nosafety
